@@ -169,3 +169,12 @@ package dhcpd
 //@   ensures added: err == nil ==> (l.IP in s.ipIndex) && s.ipIndex[l.IP] == l
 //@   modifies *
 
+
+// Restoring the table (start-up / restart): the host name of a reservation comes back exactly as stored - only dynamic
+// leases get their host names re-validated.  (Only this call-site clause is proved for ResetLeases; its use of addLease
+// is outside this contract.)
+//@ func (s *v4Server) ResetLeases(leases []*dhcpsvc.Lease) (err error)
+//@   property C10
+//@   callsites-only
+//@   callsite (*github.com/AdguardTeam/AdGuardHome/internal/dhcpd.v4Server).validHostnameForClient(h, ip) requires dynamic-leases-only: !l.IsStatic
+//@   modifies *
